@@ -41,6 +41,12 @@ structure Method where
   fieldCallsHeld : List (String × String)   -- (field, method) calls on sub-objects, lock held
   fieldCallsFree : List (String × String)
   callbacksHeld  : List String      -- function-valued fields invoked while the lock is held
+  valueRecv   : Bool                -- declared on `T`, not `*T`: every call copies the struct and its lock
+  rlock       : Bool                -- takes only the read side of an RWMutex
+  ptrWrites   : Bool                -- assigns through a selector / index / pointer that is not a receiver field
+  otherLocks  : List String         -- identifiers (≠ receiver) whose instance lock this method takes
+  underOther  : List String         -- own methods called (or "#own-lock") while another instance's lock is held
+  extCalls    : List String         -- calls `X.F(…)` on identifiers other than the receiver (package functions …)
   paths       : List (List Tok)     -- execution paths (loops unrolled ≤ 2), queue types only
   deriving DecidableEq, Repr
 
@@ -136,6 +142,34 @@ def atomicOrDelegates (T : TypeFacts) (m : String) : Bool :=
   | none => false
   | some M => !M.acquires && (freeAccesses T T.fuel m).isEmpty && M.callsFree.length == 1
               && M.callsFree.all (atomicMethod T)
+
+/-! ### lock-bearing structs must not be copied; read locks must not cover writers; no lock order
+    between two instances of one type -/
+
+/-- methods declared with a value receiver on a lock-bearing type (calling one copies the mutex:
+    the copy's lock state is garbage, a later Lock on it may never return) -/
+def valueReceivers (T : TypeFacts) : List String :=
+  (T.methods.filter (·.valueRecv)).map (·.name)
+
+/-- does `m` (transitively through own calls) write shared structure? -/
+def mutatesWithin (T : TypeFacts) : Nat → String → Bool
+  | 0, _ => true
+  | fuel + 1, m =>
+    match T.find m with
+    | none => false
+    | some M =>
+      M.ptrWrites || (M.accHeld ++ M.accFree).any (·.write)
+        || (M.callsHeld ++ M.callsFree).any (mutatesWithin T fuel)
+
+/-- methods that take only the read lock although they (or their callees) write -/
+def writersUnderReadLock (T : TypeFacts) : List String :=
+  (T.methods.filter (fun M => M.rlock && mutatesWithin T T.fuel M.name)).map (·.name)
+
+/-- methods that, while holding the lock of *another* instance of the type, take the lock of the
+    receiver (directly or through an own method): with two instances merged in opposite directions
+    this is a lock-order cycle, and with the receiver itself as argument a self-deadlock -/
+def crossInstanceLockers (T : TypeFacts) : List String :=
+  (T.methods.filter (fun M => M.underOther.any (fun c => c == "#own-lock" || acquiresWithin T T.fuel c))).map (·.name)
 
 /-! ### queues: the list is only touched under the condition's mutex; wait/broadcast discipline -/
 
